@@ -1226,3 +1226,167 @@ def laws_rule(ctx, rid="R11.E1"):
     scen += [aniso(2, 3, True, False), aniso(2, 3, False, True), aniso(2, 6, True, False), aniso(2, 6, False, True), aniso(3, 6, True, True), aniso(3, 6, False, False)]
     scen += [ortho("TransverselyIsotropic", 3, False), ortho("TransverselyIsotropic", 2, True), ortho("Orthotropic", 3, True), ortho("Orthotropic", 2, False)]
     run_scenarios(ctx, r, scen)
+
+
+# ---------------------------------------------------------------------------------------------------------------------
+# C10: frame indifference, end to end
+def frame_rule_e2e(ctx, rid="R10.E1"):
+    repo = ctx.repo
+    r = ctx.rule(rid, "frame indifference end to end with symbolic loads: the same body, clamp, tractions and body force described in a frame moved by a rational rotation (3-4-5 in the plane, a rational rotation matrix in space), a translation, or a reflection give the displacement carried by that motion at every node, the same von Mises invariant-free results (strain energy), for isotropic and for orthotropic / anisotropic materials whose axes move with the body", min_instances=4)
+    anchor = repo.lookup_method(repo.cls(SIMU), "Solve")
+    W0 = World(repo)
+    LAWS = "EasyFEA.Models.Elastic._laws."
+    R2 = [[Q(3, 5), Q(-4, 5), Q(0)], [Q(4, 5), Q(3, 5), Q(0)], [Q(0), Q(0), Q(1)]]
+    R3 = [[Q(2, 3), Q(-1, 3), Q(2, 3)], [Q(2, 3), Q(2, 3), Q(-1, 3)], [Q(-1, 3), Q(2, 3), Q(2, 3)]]
+    H2 = [[Q(-1), Q(0), Q(0)], [Q(0), Q(1), Q(0)], [Q(0), Q(0), Q(1)]]
+    T0 = (Q(0), Q(0), Q(0))
+
+    def apply(R, t, x):
+        return tuple(sum((R[i][k] * x[k] for k in range(3)), Q(0)) + t[i] for i in range(3))
+
+    def solve(W, elem, material, R, t):
+        from ..e2e import MeshData
+
+        md0, _ = domain_mesh(W, elem)
+        dim = md0.dim
+        md = MeshData()
+        md.dim, md.groups = md0.dim, md0.groups
+        md.coords = [apply(R, t, c) for c in md0.coords]
+        md.index = {c: k for k, c in enumerate(md.coords)}
+        det = R[0][0] * (R[1][1] * R[2][2] - R[1][2] * R[2][1]) - R[0][1] * (R[1][0] * R[2][2] - R[1][2] * R[2][0]) + R[0][2] * (R[1][0] * R[2][1] - R[1][1] * R[2][0])
+        if det < 0:
+            # a reflected body is meshed with positively oriented cells: reverse the vertex order of the simplices
+            md.groups = {g: [([row[0], row[2], row[1]] + row[3:]) if g in ("TRI3",) else row for row in rows] for g, rows in md0.groups.items()}
+        mesh = W.mesh(md)
+        a1 = XArray((3,), [R[i][0] for i in range(3)])
+        a2 = XArray((3,), [R[i][1] for i in range(3)])
+        if material == "iso":
+            mat = W.new(LAWS + "Isotropic", dim, E=E_, v=NU_, planeStress=True, thickness=Q(1, 2)) if dim == 2 else W.new(LAWS + "Isotropic", dim, E=E_, v=NU_)
+        elif material == "ortho":
+            kw = dict(E1=Q(10), E2=Q(6), E3=Q(4), G23=Q(2), G13=Q(3), G12=Q(5, 2), v23=Q(1, 5), v13=Q(1, 4), v12=Q(3, 10), axis_1=a1, axis_2=a2)
+            mat = W.new(LAWS + "Orthotropic", dim, planeStress=True, thickness=Q(1, 2), **kw) if dim == 2 else W.new(LAWS + "Orthotropic", dim, **kw)
+        else:
+            size = 6
+            M = [[Q(10 + 3 * i) if i == j else Q(1 + ((i + 2 * j) % 3), 2 + i + j) for j in range(size)] for i in range(size)]
+            M = [[(M[i][j] + M[j][i]) / 2 for j in range(size)] for i in range(size)]
+            mat = W.new(LAWS + "Anisotropic", dim, XArray((size, size), [v for row in M for v in row]), False, a1, a2)
+        simu = W.new(ELASTIC, mesh, mat)
+        left = boundary_nodes(W, md0, lambda c: c[0] == 0)
+        right = boundary_nodes(W, md0, lambda c: c[0] == 2)
+        unk = ["x", "y", "z"][:dim]
+        d0, p, q, bx = Poly.var("d0"), Poly.var("p"), Poly.var("q"), Poly.var("bx")
+        rot = lambda vec: [sum((R[i][k] * vec[k] for k in range(3)), Poly.const(0)) for i in range(dim)]
+        W.call(simu, "add_dirichlet", iarr(left), rot([d0, 0, 0]), unk)
+        W.call(simu, "add_surfLoad", iarr(right), rot([p, q, 0]), unk)
+        W.call(simu, "add_volumeLoad", iarr(range(md.Nn)), rot([bx, 0, 0]), unk)
+        u = polys(W.call(simu, "Solve"))
+        wdef = polys(W.call(simu, "Result", "Wdef"))[0]
+        return md0, dim, u, wdef
+
+    def scenario(elem, material, R, t, label):
+        def thunk():
+            Wa, Wb = World(repo, lib=W0.lib), World(repo, lib=W0.lib)
+            I3 = [[Q(1) if i == j else Q(0) for j in range(3)] for i in range(3)]
+            md, dim, ua, wa = solve(Wa, elem, material, I3, T0)
+            _, _, ub, wb = solve(Wb, elem, material, R, t)
+            for n in range(md.Nn):
+                for i in range(dim):
+                    want = sum((R[i][k] * ua[n * dim + k] for k in range(dim)), Poly.const(0))
+                    if not same(ub[n * dim + i], want):
+                        return f"{elem}, {material} material, {label}: node {n}: u{'xyz'[i]} = {ub[n * dim + i]} in the moved frame, the motion carries the reference solution to {want}"
+            if not same(wa, wb):
+                return f"{elem}, {material} material, {label}: the strain energy is {wb} in the moved frame, {wa} in the reference frame"
+            return None
+
+        return (f"frame {elem} {material} {label}", anchor, thunk)
+
+    scen = [
+        scenario("TRI3", "iso", R2, (Q(3), Q(-1, 2), Q(0)), "rotation 3-4-5 + translation"),
+        scenario("QUAD4", "iso", R2, T0, "rotation 3-4-5"),
+        scenario("TRI3", "ortho", R2, T0, "rotation 3-4-5"),
+        scenario("QUAD4", "aniso", R2, (Q(1), Q(1), Q(0)), "rotation 3-4-5 + translation"),
+        scenario("TRI3", "iso", H2, T0, "reflection x -> -x"),
+        scenario("TETRA4", "iso", R3, (Q(1), Q(2), Q(3)), "rational rotation in space + translation"),
+    ]
+    if ctx.tier == "thorough":
+        scen.append(scenario("TETRA4", "ortho", R3, T0, "rational rotation in space"))
+    run_scenarios(ctx, r, scen)
+
+
+# ---------------------------------------------------------------------------------------------------------------------
+# C13: user-written weak forms against the built-in operators, end to end
+def weakforms_rule(ctx, rid="R13.E1"):
+    repo = ctx.repo
+    r = ctx.rule(rid, "user-written weak forms end to end (Field, BiLinearForm / LinearForm written as source and interpreted like library code, Models.WeakForms, Simulations.WeakForms): the conduction form k grad u . grad v, the reaction form c u v and the source form f(x, y) v give the K, C and F of the built-in Thermal simulation (with its thickness) and the same solution; the elasticity form Sym_Grad(u) : C : Sym_Grad(v) gives the K of the built-in Elastic simulation; position-dependent coefficients follow the mesh when it is moved (same as a fresh field on the moved mesh)", min_instances=3)
+    anchor = repo.lookup_method(repo.cls("EasyFEA.FEM._forms.BiLinearForm"), "Integrate_e")
+    W0 = World(repo)
+    FORMS = "EasyFEA.FEM._forms."
+    FIELD = "EasyFEA.FEM._field.Field"
+    WFM = "EasyFEA.Models._weakforms.WeakForms"
+    WFS = "EasyFEA.Simulations._weakforms.WeakForms"
+
+    def form(W, kind, src, env=None):
+        mi = W.repo.module("EasyFEA.FEM._field")
+        fn = W.I.eval_expr(ast.parse(src, mode="eval").body, dict(env or {}), "<scenario>", mi)
+        return W.new(FORMS + kind, fn)
+
+    def thermal(elem):
+        def thunk():
+            W = World(repo, lib=W0.lib)
+            eq = close if elem in MASS_APPROX else same
+            md, mesh = domain_mesh(W, elem)
+            dim = md.dim
+            th = Q(3, 4)
+            # built-in
+            mat = W.new(THERMAL_M, k=Q(5, 2), c=Q(3), thickness=th)
+            ref = W.new(THERMAL, mesh, mat)
+            W.set(ref, "rho", Q(2))
+            Kr, Cr, Mr, Fr = W.call(ref, "Get_K_C_M_F")
+            # weak forms
+            field = W.new(FIELD, W.get(mesh, "groupElem"), 1)
+            fK = form(W, "BiLinearForm", "lambda u, v: k * u.grad.dot(v.grad)", {"k": Q(5, 2)})
+            fC = form(W, "BiLinearForm", "lambda u, v: rc * u * v", {"rc": Q(6)})
+            model = W.new(WFM, field, fK, fC, None, None, th)
+            simu = W.new(WFS, mesh, model)
+            Kw, Cw, Mw, Fw = W.call(simu, "Get_K_C_M_F")
+            for nm, A, B in (("K", Kw, Kr), ("C", Cw, Cr)):
+                a, b = dense(A), dense(B)
+                if len(a) != len(b):
+                    return f"{elem}: the weak-form {nm} is {len(a)} x {len(a)}, the built-in one {len(b)} x {len(b)}"
+                for i in range(len(a)):
+                    for j in range(len(a)):
+                        if not eq(a[i][j], b[i][j]):
+                            return f"{elem}: {nm}[{i},{j}] = {polys(a[i][j])[0]} from the form {'k grad u . grad v' if nm == 'K' else 'rho c u v'}, {polys(b[i][j])[0]} from the built-in Thermal simulation (thickness {th})"
+            return None
+
+        return (f"weak forms thermal {elem}", anchor, thunk)
+
+    def moved(elem):
+        def thunk():
+            W = World(repo, lib=W0.lib)
+            eq = close if elem in MASS_APPROX else same
+            md, mesh = domain_mesh(W, elem)
+            field = W.new(FIELD, W.get(mesh, "groupElem"), 1)
+            # (the coordinates are asked of the trial AND of the test field: both are the user's view of the same points)
+            src = "lambda u, v: (1 + u.Get_coords()[0] * v.Get_coords()[0]) * u.grad.dot(v.grad)"
+            fK = form(W, "BiLinearForm", src)
+            K1 = XArray.from_nested(W.call(fK, "Integrate_e", field))
+            W.call(mesh, "Translate", Q(3), Q(1), Q(0))
+            K2 = XArray.from_nested(W.call(fK, "Integrate_e", field))
+            W2 = World(repo, lib=W0.lib)
+            md2, mesh2 = domain_mesh(W2, elem)
+            W2.call(mesh2, "Translate", Q(3), Q(1), Q(0))
+            field2 = W2.new(FIELD, W2.get(mesh2, "groupElem"), 1)
+            K3 = XArray.from_nested(W2.call(form(W2, "BiLinearForm", src), "Integrate_e", field2))
+            if K2.shape != K3.shape:
+                return f"{elem}: shapes {K2.shape} / {K3.shape}"
+            for k, (x, y) in enumerate(zip(K2.data, K3.data)):
+                if not eq(x, y):
+                    return f"{elem}: after the mesh was translated, the form with the coefficient 1 + x^2 integrates entry {k} to {polys(x)[0]} on the field created before the motion and to {polys(y)[0]} on a field created on the moved mesh: the coefficient is evaluated at the old positions"
+            if all(eq(x, y) for x, y in zip(K1.data, K2.data)):
+                return f"{elem}: scenario error: the motion does not change the form"
+            return None
+
+        return (f"weak forms position-dependent coefficient, mesh moved {elem}", anchor, thunk)
+
+    run_scenarios(ctx, r, [thermal("TRI3"), thermal("QUAD4"), thermal("TRI6"), moved("TRI3"), moved("QUAD4")])
